@@ -167,6 +167,144 @@ func c20DirtySetSites(f *core.FuncInfo) []core.Point {
 	return out
 }
 
+// c20Dirtying lists the points of f after which the derived state may be stale: dirty = true (directly
+// or in a helper that always sets it) and stores into source state.
+func c20Dirtying(f *core.FuncInfo) []core.Point {
+	out := c20DirtySetSites(f)
+	for _, s := range c20Stores(f) {
+		if s.Field != c20Dirty && !c20Derived[s.Field] {
+			out = append(out, s.Pt)
+		}
+	}
+	return out
+}
+
+// c20FreshSites lists the points of f after which the derived state is certainly fresh: calls of
+// recacheState, and calls (on f's receiver) of a helper that ensures freshness (c20EnsuresClean), e.g. an
+// extracted `if h.dirty { h.recacheState() }`.
+func c20FreshSites(f *core.FuncInfo, depth int) []core.Point {
+	var out []core.Point
+	for _, cs := range f.CallsTo(c20Recache) {
+		if !cs.InGo && !cs.InDefer {
+			out = append(out, cs.Pt)
+		}
+	}
+	if depth <= 0 {
+		return out
+	}
+	for _, cs := range c20HelperSites(f, func(g *core.FuncInfo, _ *core.CallSite) bool { return c20EnsuresClean(g, depth) }) {
+		out = append(out, cs.Pt)
+	}
+	return out
+}
+
+// c20EnsuresClean: the indexer method g returns only with fresh derived state: every path from its entry
+// to a return runs recacheState (directly or through another such helper, bounded depth) or takes the
+// dirty == false edge, and so does every path from a dirtying statement of g to a return.
+func c20EnsuresClean(g *core.FuncInfo, depth int) bool {
+	if g == nil || depth <= 0 || g.Recv() == nil || g.RecvTypeName() != c20QiT || g.Name == c20Recache {
+		return false
+	}
+	fresh := core.PointSet(c20FreshSites(g, depth-1)...)
+	clean := c19Edges(g, c20BoolFact(g, c20Dirty, false))
+	if _, stale := (core.PathQuery{F: g, From: g.Entry(), Avoid: fresh, AvoidEdge: clean, TargetExit: true}).Find(); stale {
+		return false
+	}
+	for _, d := range c20Dirtying(g) {
+		if fresh(d) {
+			continue
+		}
+		if _, stale := (core.PathQuery{F: g, From: d, FromAfter: true, Avoid: fresh, AvoidEdge: clean, TargetExit: true}).Find(); stale {
+			return false
+		}
+	}
+	return true
+}
+
+// c20Site is one call of a function, with the caller.
+type c20Site struct {
+	from *core.FuncInfo
+	cs   *core.CallSite
+}
+
+// c20PrivateSites lists every call of g when g is a private method of the indexer: unexported, never
+// used as a method value, called only as a plain call on the caller's own receiver. Code of such a
+// method runs only as a part of its callers, at those call sites.
+func c20PrivateSites(p *core.Prog, g *core.FuncInfo) ([]c20Site, bool) {
+	if g == nil || g.Obj == nil || g.Obj.Exported() || g.RecvTypeName() != c20QiT {
+		return nil, false
+	}
+	var sites []c20Site
+	refs := 0
+	for _, f := range c20PkgFuncs(p) {
+		for _, cs := range f.Calls() {
+			if fn, ok := cs.Callee.(*types.Func); ok && p.FuncOf(fn) == g {
+				sites = append(sites, c20Site{f, cs})
+			}
+		}
+		if f.Lit != nil {
+			continue // literals are walked as part of their parent
+		}
+		f.InspectAll(func(n ast.Node) bool {
+			if id, ok := n.(*ast.Ident); ok {
+				if fn, ok := f.Info().Uses[id].(*types.Func); ok && p.FuncOf(fn) == g {
+					refs++
+				}
+			}
+			return true
+		})
+	}
+	if len(sites) == 0 || refs != len(sites) {
+		return nil, false
+	}
+	for _, s := range sites {
+		if s.cs.InGo || s.cs.InDefer || s.cs.IsConv || !c20OnRecv(s.from, s.cs) {
+			return nil, false
+		}
+	}
+	return sites, true
+}
+
+// c20CleanAt decides that the derived state is fresh whenever point pt of f is reached: within f, pt is
+// reached only after a freshness point (recacheState or an ensure-clean helper) or over the
+// dirty == false edge, also after any dirtying statement of f; or f is a private method that does not
+// dirty the state before pt and the same holds at each of its call sites (bounded depth). On failure
+// it returns the function and path that witness a stale read.
+func c20CleanAt(p *core.Prog, f *core.FuncInfo, pt core.Point, depth int) (bool, *core.FuncInfo, []core.Point) {
+	if f.Lit != nil {
+		return false, f, nil
+	}
+	fresh := core.PointSet(c20FreshSites(f, 2)...)
+	clean := c19Edges(f, c20BoolFact(f, c20Dirty, false))
+	for _, d := range c20Dirtying(f) {
+		if d == pt {
+			continue
+		}
+		if p2, stale := (core.PathQuery{F: f, From: d, FromAfter: true, Target: core.PointSet(pt), Avoid: fresh, AvoidEdge: clean}).Find(); stale {
+			return false, f, p2
+		}
+	}
+	path, found := core.PathQuery{F: f, From: f.Entry(), Target: core.PointSet(pt), Avoid: fresh, AvoidEdge: clean}.Find()
+	if pt == f.Entry() {
+		found = true
+	}
+	if !found {
+		return true, nil, nil
+	}
+	// f can reach pt with the state it was entered with: every call site has to establish freshness
+	if depth > 0 {
+		if sites, private := c20PrivateSites(p, f); private {
+			for _, s := range sites {
+				if ok, wf, wp := c20CleanAt(p, s.from, s.cs.Pt, depth-1); !ok {
+					return false, wf, wp
+				}
+			}
+			return true, nil, nil
+		}
+	}
+	return false, f, path
+}
+
 // c20HelperStoresMedian: g stores into globalMedianSeqs at exactly one place, `globalMedianSeqs[p] = …`
 // with p one of its (unmodified) parameters, and does so on every path; returns p's position.
 func c20HelperStoresMedian(g *core.FuncInfo) (int, bool) {
